@@ -9,12 +9,14 @@ import (
 
 	"verif/engine/build"
 	"verif/engine/props/c01"
+	"verif/engine/props/c03"
 	"verif/engine/props/c06"
 	"verif/engine/props/c07"
 	"verif/engine/props/c13"
 	"verif/engine/props/c19"
 	"verif/engine/props/c20"
 	"verif/engine/props/core"
+	"verif/engine/props/goh"
 )
 
 type checkFn func(r *core.Report, env *build.Env)
@@ -24,6 +26,7 @@ var checks = map[string]struct {
 	fn    checkFn
 }{
 	"C01": {"translation_validation", c01.Run},
+	"C03": {"model_checking", c03.Run},
 	"C06": {"model_checking", c06.Run},
 	"C07": {"model_checking", c07.Run},
 	"C13": {"model_checking", c13.Run},
@@ -54,6 +57,7 @@ func main() {
 	}
 	if d := os.Getenv("VERIF_DIR"); d != "" {
 		core.VerifDir = d
+		goh.HarnessDir = d + "/harness/go"
 	}
 	r := core.NewReport(id, *tier, seed, ck.level)
 	env, err := build.NewEnv()
